@@ -77,6 +77,19 @@ def gen_case(r, front, framing, uniq, data_only=False, max_per_read=3, allow_for
     return case
 
 
+def cap_reads(case, limit=1024):
+    """long pipelined bursts: no read longer than what the threaded handlers ask their socket for in one call (a longer burst
+    reaches them cut at that size - mid-frame, which is the split-frame territory of C06)"""
+    while True:
+        lens = [len(b) for b in build_reads(dict(case, inserts=[]))]
+        big = [i for i, n in enumerate(lens) if n > limit and len(case['reads'][i]) > 1]
+        if not big:
+            return case
+        i = big[0]
+        rd = case['reads'][i]
+        case['reads'][i:i + 1] = [rd[:len(rd) // 2], rd[len(rd) // 2:]]
+
+
 def add_failing(r, case, k):
     """one hosted unit's datastore raises on every access (class chosen from SM.FAIL_CLASSES)"""
     hosted = sorted(int(u) for u in case['layout']['units'])
@@ -101,6 +114,12 @@ def add_delivery(r, case):
     if case['front'] == 'sync-tcp' and r.random() < 0.5:
         # idle periods longer than the receive timeout of the server's sockets (the handler sees socket.timeout and must go on)
         d['timeouts'] = sorted(set(r.randrange(n + 1) for _ in range(r.randint(1, 3))))
+    if case['front'].endswith('-udp') and r.random() < 0.5:
+        # datagrams without payload between the requests (legal UDP; port scanners and keep-alives send them)
+        d['empties'] = sorted(set(r.randrange(n + 1) for _ in range(r.randint(1, 3))))
+    if case['front'] == 'sync-tcp' and case['framing'] == 'ascii' and r.random() < 0.6:
+        # every read reaches the handler in 2..3 pieces (TCP segments anywhere; the ASCII framer copes with every chunking)
+        d['chop'] = r.getrandbits(30) + 1
     case['delivery'] = d
     return case
 
@@ -231,6 +250,21 @@ def execute(case):
         for idx in sorted(case['delivery']['timeouts'], reverse=True):
             pos = [k for k, x in enumerate(fed) if isinstance(x, (bytes, bytearray))]
             fed.insert(pos[idx] if idx < len(pos) else len(fed), _socket.timeout('timed out'))
+    if case.get('delivery', {}).get('empties') and case['front'].endswith('-udp'):
+        for idx in sorted(case['delivery']['empties'], reverse=True):
+            pos = [k for k, x in enumerate(fed) if isinstance(x, (bytes, bytearray))]
+            fed.insert(pos[idx] if idx < len(pos) else len(fed), FE.EMPTY)
+    if case.get('delivery', {}).get('chop') and case['front'] == 'sync-tcp':
+        import random as _random
+        rr = _random.Random(case['delivery']['chop'])
+        chopped = []
+        for x in fed:
+            if isinstance(x, (bytes, bytearray)) and len(x) >= 2:
+                cuts = sorted(set(rr.randrange(1, len(x)) for _ in range(rr.randint(1, 2))))
+                chopped.extend(x[a:b] for a, b in zip([0] + cuts, cuts + [len(x)]))
+            else:
+                chopped.append(x)
+        fed = chopped
     if case.get('failing'):
         SM.make_failing(blocks[int(case['failing'][0])], case['failing'][1])
     res = FE.feed(case['front'], case['framing'], ctx, fed, **dict(case['flags'], **case.get('delivery', {})))
